@@ -87,6 +87,19 @@ Theorem C11_add_sub_laws : forall d n,
 Proof. exact add_sub_laws. Qed.
 Print Assumptions C11_add_sub_laws.
 
+(** a dekad covers exactly ndays whole days and starts at midnight; the 36 dekads from yyyy01d1 to
+    the next yyyy01d1 cover exactly that calendar year (365 or 366 days) *)
+Theorem C11_dekad_span : forall k,
+  end_date k + timedelta_us 1 - start_date k = ndays k * US_PER_DAY /\ start_date k mod US_PER_DAY = 0.
+Proof. intros k. split; [exact (dekad_span k)|exact (start_midnight k)]. Qed.
+Print Assumptions C11_dekad_span.
+
+Theorem C11_year_span : forall y,
+  of_ymd (y + 1) 1 1 = add (of_ymd y 1 1) 36 /\
+  start_date (of_ymd (y + 1) 1 1) - start_date (of_ymd y 1 1) = (if is_leap y then 366 else 365) * US_PER_DAY.
+Proof. intros y. split; [unfold add, of_int, of_ymd; ring|exact (year_span y)]. Qed.
+Print Assumptions C11_year_span.
+
 (** Non-vacuity: 2000-02-29 23:59:59.999999 is a valid instant; its dekad is 2000-02-d3 with 9 days. *)
 Example C11_example :
   let k := of_date 2000 2 29 in
